@@ -114,7 +114,7 @@ def heap_obligations(prefix):
     return obs, fns
 
 
-def traversal_probe(seed, n_sets):
+def traversal_probe(seed, n_sets, tiny=False):
     """The traversal itself on the real crate (verif hook wrapping_nn_shifts = rtree_nn::wrapping_nn_iter over a bulk-loaded tree):
     for random, clustered and lattice generator sets the complete candidate sequence must start with the query generator (no shift), be
     non-decreasing in distance to generator + shift, and contain every (generator, lattice shift) pair exactly once, None iff shift zero."""
@@ -124,6 +124,7 @@ def traversal_probe(seed, n_sets):
     for t in range(n_sets):
         d = rng.choice([1, 2, 3]); n = rng.choice([1, 2, 7, 30])
         w = [1.0, rng.choice([1.0, 1.5]), rng.choice([1.0, 0.7])]
+        if tiny and t % 2: w = [x * 2.0 ** -60 for x in w]        # exact scaling: a shift of one period is ~1e-18, far below any epsilon, and still not zero
         kind = t % 3
         if kind == 0: gens = [[rng.random() * w[0], rng.random() * w[1], rng.random() * w[2]] for _ in range(n)]
         elif kind == 1: gens = [[(0.5 + 0.01 * rng.random()) * w[0], (0.5 + 0.01 * rng.random()) * w[1], (0.5 + 0.01 * rng.random()) * w[2]] for _ in range(n)]
